@@ -40,6 +40,20 @@ elif sys.argv[1] == "--result":
 else:
     d = sys.argv[1].rstrip("/")
     c = json.load(open(os.path.join(d, "confirm.json")))
+    LOAD_SENSITIVE = ("import__execution_error_on_header_4_when_awaits_for_1000000_blocks",
+                      "executes_5_tasks_for_5_seconds_with_one_thread", "executes_10_tasks_for_5_seconds_with_one_thread",
+                      "tests_preconf_rollback::", "test_gossipped_transaction_with_transient_error_ignored",
+                      "prune_expired_transactions", "insert__tx_depends_one_extracted_and_one_pool_tx")
+    ex = c.get("existing_tests_with_patch") or {}
+    att = ex.get("attempts") or []
+    if not att and ex.get("rc", 0) != 0:
+        names = [l.strip() for l in ex.get("tail", "").splitlines() if l.startswith("    ") and "::" in l and " " not in l.strip()]
+        att = [{"rc": ex["rc"], "failed_tests": sorted(set(names))}]
+        ex["attempts"] = att
+    only_flaky = ex.get("rc", 1) != 0 and bool(att) and all(a["failed_tests"] and all(any(k in t for k in LOAD_SENSITIVE) for t in a["failed_tests"]) for a in att)
+    ex["only_load_sensitive_failures"] = only_flaky
+    if c.get("patch_applies") and "demo_with_patch" in c:
+        c["confirmed"] = (c["demo_without_patch"]["rc"] == 0 and c["demo_with_patch"]["rc"] != 0 and (ex.get("rc") == 0 or only_flaky))
     if not c.get("confirmed"):
         print("not confirmed:", d); sys.exit(1)
     src = json.load(open(os.path.join(d, "meta.json")))
